@@ -43,10 +43,16 @@ def gen(rng, positive_only):
     lines = HDR.splitlines()
     nb = rng.choice([1, 1, 2])
     buzzers = []
+    df_text = {}
     for i in range(nb):
         pin = [8, 12, 7][i]
         df = rng.choice([None, 880, 220.5])
-        lines.append(f"bz{i} = Buzzer({pin}" + (f", default_frequency={df}" if df else "") + ")")
+        if df and rng.random() < 0.3:
+            lines.append(f"df{i} = {df}")  # the default frequency named by a user variable
+            lines.append(f"bz{i} = Buzzer({pin}, default_frequency=df{i})")
+            df_text[i] = f"df{i}"
+        else:
+            lines.append(f"bz{i} = Buzzer({pin}" + (f", default_frequency={df}" if df else "") + ")")
         buzzers.append((f"bz{i}", pin, float(df) if df else 440.0))
     calls = []
     nvar = [0]
@@ -109,13 +115,14 @@ def gen(rng, positive_only):
             c.update(start=s, end=e, dur=d, steps=st, runtime=r1 or r2 or r3 or r4, dur_runtime=r3)
         else:
             m = rng.choice(sorted(SCORES))
+            spelled = rng.choice([m, m, m.upper(), m.capitalize(), m.title()])
             if rng.random() < 0.5:
-                body.append(f"{name}.melody(\"{m}\")")
+                body.append(f"{name}.melody(\"{spelled}\")")
                 c.update(melody=m, tempo=None)
             else:
                 tp = pick(TEMPOS)
                 a, rt = arg(tp)
-                body.append(f"{name}.melody(\"{m}\", tempo={a})")
+                body.append(f"{name}.melody(\"{spelled}\", tempo={a})")
                 c.update(melody=m, tempo=tp, runtime=rt)
         body.append(f"mon.write(\"@{k}\")")
         body.append(f"mon.write(int({name}.get_state()))")
@@ -123,13 +130,28 @@ def gen(rng, positive_only):
         body.append(f"mon.write({name}.get_last_frequency())")
         calls.append(c)
     in_loop = rng.random() < 0.3
+    rebind = None
+    if not in_loop and nb == 1 and len(calls) >= 4 and rng.random() < 0.3:
+        # the same buzzer name re-bound to another pin half-way: earlier calls drive the first pin, later calls the new one
+        cut = len(calls) // 2
+        new_pin = 10
+        pos = next(i for i, ln in enumerate(body) if ln == f'mon.write("@{cut - 1}")') + 4
+        df = buzzers[0][2]
+        body.insert(pos, f"bz0 = Buzzer({new_pin}" + (f", default_frequency={df_text.get(0, df)}" if df != 440.0 else "") + ")")
+        for c in calls[cut:]:
+            c["pin"] = new_pin
+        calls[cut]["_rebind_from"] = buzzers[0][1]
+        rebind = ("bz0#2", new_pin, df)
     if in_loop:
         lines.append("while True:")
         lines += ["    " + b for b in body]
         lines.append("    sleep(5)")
     else:
         lines += body
-    return "\n".join(lines) + "\n", calls, {b[0]: b for b in buzzers}, in_loop
+    bmap = {b[0]: b for b in buzzers}
+    if rebind:
+        bmap[rebind[0]] = rebind
+    return "\n".join(lines) + "\n", calls, bmap, in_loop
 
 
 def tone_of(f):
@@ -179,6 +201,10 @@ def monitor(events, calls, buzzers, in_loop):
         c = calls[k]
         seen += 1
         pin = c["pin"]
+        if "_rebind_from" in c:
+            # the device keeps one set of state variables per buzzer name across a re-declaration
+            state[pin]["last"] = state[c["_rebind_from"]]["last"]
+            c["_last"] = state[pin]["last"]
         st = state[pin]
         ev = [(t, kind, f) for (t, kind, f) in seg if (kind in ("TONE", "NOTONE") and int(f[0]) == pin) or kind == "DELAY"]
         tones = [int(f[1]) for (t, kind, f) in ev if kind == "TONE"]
@@ -301,9 +327,6 @@ def monitor(events, calls, buzzers, in_loop):
             problems.append(("getters-missing", f"{label}: getter prints not found ({g})"))
         c["_done"] = True
         # remember the last frequency for a later default beep on the same buzzer
-        for c2 in calls[k + 1:]:
-            if c2["pin"] == pin and c2["kind"] == "beep_default" and "_last" not in c2:
-                pass
         for c2 in calls[k + 1:]:
             if c2["pin"] == pin:
                 c2["_last"] = st["last"]
